@@ -8,12 +8,12 @@ baseline = json.load(open('/root/.vp/BASELINE.json'))['cmd']
 CHECKS = {
  "C11": ("model_checking",
          "explicit-state IDDFS over real handlers + reference log",
-         "Exhaustive enumeration (iterative-deepening DFS with a transposition table on the full-store digest) of every propose/delete/advance/restart-via-genesis history over two bridges up to the completed depth, executing the real ophost MsgServer with runTx semantics; after every transition a per-bridge reference log is compared with the OutputProposals (whole, and paged by 1 and 2, forward and reverse), OutputProposal and LastFinalizedOutput queries, the next-index counter and the raw store, acceptance must imply the model's guard and rejection must leave the digest unchanged.",
+         "Exhaustive enumeration (iterative-deepening DFS with a transposition table on the full-store digest) of every propose/delete/advance/restart-via-genesis history over two bridges up to the completed depth, executing the real ophost MsgServer with runTx semantics; after every transition a per-bridge reference log is compared with the OutputProposals (whole, and paged by 1 and 2, forward and reverse), OutputProposal and LastFinalizedOutput queries, the next-index counter and the raw store (L2 block numbers include 2^64-1 and what wraps around after it), acceptance must imply the model's guard and rejection must leave the digest unchanged.",
          "Trusted: Go toolchain, cosmos-sdk store/auth/bank, harness world construction (mirrors the repo's test setup), one-message-per-tx = baseapp.runTx semantics. Bounded: 2 bridges, period 10s, depth 5 (quick) / 7 (thorough).",
          "DESIGN.md §6 C11"),
  "C02": ("model_checking",
          "explicit-state IDDFS over real handlers + paid-ledger model",
-         "Exhaustive enumeration of every propose/delete/re-propose/advance/finalize history (3 leaves, two trees sharing leaves, a bogus root, output indices 1-2, two submitters) up to the completed depth on the real ophost handlers; oracle: paid[w] <= 1, a finalize is accepted only against a stored, final output whose root matches the proof's tree (independent leaf/tree/output-root code), recipient and escrow balances equal the paid ledger, Claimed query iff paid in every state, rejected messages leave the digest unchanged. Bridge 2 has a final output and a paid withdrawal of its own from the start. A RestartViaGenesis letter (module genesis exported, JSON round trip, ValidateGenesis, import into the emptied module store) is part of the alphabet, so every clause is also decided across chain restarts.",
+         "Exhaustive enumeration of every propose/delete/re-propose/advance/finalize history (3 leaves, two trees sharing leaves, a bogus root, output indices 1-2, two submitters) up to the completed depth on the real ophost handlers; oracle: paid[w] <= 1, a finalize is accepted only against a stored, final output whose root matches the proof's tree (independent leaf/tree/output-root code), recipient and escrow balances equal the paid ledger, Claimed query iff paid in every state, rejected messages leave the digest unchanged. Bridge 2 has a final output and a paid withdrawal of its own from the start; one Finalize letter resubmits a withdrawal with its recipient spelled in upper-case bech32 (another string, hence no committed leaf). A RestartViaGenesis letter (module genesis exported, JSON round trip, ValidateGenesis, import into the emptied module store) is part of the alphabet, so every clause is also decided across chain restarts.",
          "Trusted: as C11 plus the independent SHA3/merkle reference (pinned against Python hashlib vectors). Bounded: 3 leaves, depth 6 (quick) / 8 (thorough).",
          "DESIGN.md §6 C02"),
  "C05": ("model_checking",
@@ -23,7 +23,7 @@ CHECKS = {
          "DESIGN.md §6 C05"),
  "C10": ("model_checking",
          "explicit-state IDDFS over real handlers + per-bridge counter model",
-         "Exhaustive enumeration of all interleavings of bridge creation and deposits over three bridge ids (two created mid-history), two denoms, zero/non-zero amounts, short/long recipients, payloads and an unfunded sender; oracle: accepted => bridge exists, returned sequence = that bridge's own counter, exactly one event with the 8 requested attributes, balances moved by the amount, token pair = independent derivation and immutable; a freshly created bridge has nothing pre-recorded; NextL1Sequence, TokenPairs (whole and paged), TokenPairByL1Denom and TokenPairByL2Denom queries = model in every state. A RestartViaGenesis letter (module genesis exported, JSON round trip, ValidateGenesis, import into the emptied module store) is part of the alphabet, so every clause is also decided across chain restarts.",
+         "Exhaustive enumeration of all interleavings of bridge creation and deposits over three bridge ids (two created mid-history), two denoms, zero/non-zero amounts, short/long recipients, payloads and an unfunded sender; oracle: accepted => bridge exists, returned sequence = that bridge's own counter, exactly one event with the 8 requested attributes, balances moved by the amount, token pair = independent derivation and immutable; a freshly created bridge has nothing pre-recorded; Two 82-character denoms sharing their first 80 characters are deposited into bridge 1. NextL1Sequence, TokenPairs (whole and paged), TokenPairByL1Denom and TokenPairByL2Denom queries = model in every state. A RestartViaGenesis letter (module genesis exported, JSON round trip, ValidateGenesis, import into the emptied module store) is part of the alphabet, so every clause is also decided across chain restarts.",
          "Trusted: as C11 plus the independent L2-denom / bridge-address derivations. Bounded: 3 ids, depth 7 (quick) / 10 (thorough).",
          "DESIGN.md §6 C10"),
  "C01": ("model_checking",
@@ -38,12 +38,12 @@ CHECKS = {
          "DESIGN.md §6 C03"),
  "C06": ("model_checking",
          "explicit-state IDDFS over real handlers + sequence/ledger model",
-         "Exhaustive enumeration of all delivery schedules over 4 L1 sequences x 3 senders (two executors, a stranger) x 2 contents (original / altered replay), interleaved with user withdrawals, transfers and executor-list changes via ExecuteMessages; the reachable state space saturates well below the depth bound. Oracle per transition: seq < next => NOOP + unchanged digest + no event, seq > next => error + unchanged, seq = next => SUCCESS, one event, credited or refunded exactly once, next+1; non-executor => unauthorised, unchanged; NextL1Sequence/NextL2Sequence queries, balances, supply = model in every state. Sequence 3 is a credited deposit whose hook fails. A RestartViaGenesis letter (module genesis exported, JSON round trip, ValidateGenesis, import into the emptied module store) is part of the alphabet, so every clause is also decided across chain restarts.",
+         "Exhaustive enumeration of all delivery schedules over 4 L1 sequences x 3 senders (two executors, a stranger) x 2 contents (original / altered replay), interleaved with user withdrawals, transfers and executor-list changes via ExecuteMessages; the reachable state space saturates well below the depth bound. Oracle per transition: seq < next => NOOP + unchanged digest + no event, seq > next => error + unchanged, seq = next => SUCCESS, one event, credited or refunded exactly once, next+1; non-executor => unauthorised, unchanged; NextL1Sequence/NextL2Sequence queries, balances, supply = model in every state. Sequence 3 is a credited deposit whose hook fails; sequence 4 carries a hook in which the delivering executor relays sequence 4 once more (re-entrancy: a no-op). A RestartViaGenesis letter (module genesis exported, JSON round trip, ValidateGenesis, import into the emptied module store) is part of the alphabet, so every clause is also decided across chain restarts.",
          "Trusted: Go toolchain, cosmos-sdk store/auth/bank, harness world construction (mirrors the repo's test setup), runTx semantics. Bounded: 4 sequences, depth 8 (quick) / 11 (thorough).",
          "DESIGN.md §6 C06"),
  "C09": ("model_checking",
          "explicit-state IDDFS over real handlers + supply/balance ledger",
-         "Exhaustive enumeration of deposit (credited and refunded, conflicting base denoms), transfer and withdrawal histories over bridged, native and unknown denoms, three signers and amounts {1, balance, balance+1}; oracle: supply and every balance = ledger in every state, an accepted withdrawal burns exactly its amount from the signer only, gets the shared gap-free L2 sequence, emits one faithful event whose base denom is the first mapping; native/unknown/over-balance withdrawals are rejected with an unchanged digest; BaseDenom and NextL2Sequence queries = model. Deposits with a failing hook are part of the alphabet. A RestartViaGenesis letter (module genesis exported, JSON round trip, ValidateGenesis, import into the emptied module store) is part of the alphabet, so every clause is also decided across chain restarts.",
+         "Exhaustive enumeration of deposit (credited and refunded, conflicting base denoms), transfer and withdrawal histories over bridged, native and unknown denoms, three signers and amounts {1, balance, balance+1}; oracle: supply and every balance = ledger in every state, an accepted withdrawal burns exactly its amount from the signer only, gets the shared gap-free L2 sequence, emits one faithful event whose base denom is the first mapping; native/unknown/over-balance withdrawals are rejected with an unchanged digest; BaseDenom and NextL2Sequence queries = model. Deposits with a failing hook (undecodable, and a signed [withdraw 1, send too much]) are part of the alphabet. A RestartViaGenesis letter (module genesis exported, JSON round trip, ValidateGenesis, import into the emptied module store) is part of the alphabet, so every clause is also decided across chain restarts.",
          "Trusted: as C06. Bounded: depth 6 (quick) / 8 (thorough).",
          "DESIGN.md §6 C09"),
  "C13": ("model_checking",
@@ -53,7 +53,7 @@ CHECKS = {
          "DESIGN.md §6 C13"),
  "C14": ("model_checking",
          "explicit-state IDDFS (C13 system + plan letters) + registration probe matrix per state",
-         "C13's search with a RegisterPlan letter (two heights x 9 operator/key combinations + executor-list variants + a decodable key of a type no consensus key can be made from, at most one per history; operator addresses sort o2 < o1 < o3 so that fresh operators fall on both sides of the genesis operator) so that plans meet every validator-set state, max-validator setting and same-block add/remove; the process-local plan table is part of the state. Oracle at the plan height: EndBlock succeeds, batch accepted by the CometBFT mirror, engine holds exactly the plan key, state agrees, executors = exactly the plan list (and the genesis list before); C13's oracle at all other heights; malformed-registration probes in every state (past/current height, occupied height with another and with the same proposal id, empty fields, bad executor address first / middle / last / only, wrong prefix, unparsable key) leave table and digest unchanged. Known findings D6a/D6b (plan reusing an existing operator with another key / another operator's key) are listed in known_findings.json with structural predicates.",
+         "C13's search with a RegisterPlan letter (two heights x 9 operator/key combinations + executor-list variants incl. an empty list and a repeated executor + decodable keys no consensus key can be made from (multisig, 3-byte ed25519), at most one per history; operator addresses sort o2 < o1 < o3 so that fresh operators fall on both sides of the genesis operator) so that plans meet every validator-set state, max-validator setting and same-block add/remove; the process-local plan table is part of the state. Oracle at the plan height: EndBlock succeeds, batch accepted by the CometBFT mirror, engine holds exactly the plan key, state agrees, executors = exactly the plan list (and the genesis list before); C13's oracle at all other heights; malformed-registration probes in every state (past/current height, occupied height with another and with the same proposal id, empty fields, bad executor address first / middle / last / only, wrong prefix, unparsable key) leave table and digest unchanged. Known findings D6a/D6b (plan reusing an existing operator with another key / another operator's key) are listed in known_findings.json with structural predicates.",
          "Trusted: as C13. Bounded: depth 5 (quick) / 6 (thorough).",
          "DESIGN.md §6 C14, §7"),
  "C17": ("model_checking",
@@ -63,7 +63,7 @@ CHECKS = {
          "DESIGN.md §6 C17"),
  "C04": ("model_checking",
          "exhaustive enumeration of withdrawal trees through both chains' real handlers + independent tree builder",
-         "Every withdrawal tree of the stated menus is run through both chains: withdrawals are produced only by the real L2 handlers (user InitiateTokenWithdrawal and the refund path of FinalizeTokenDeposit), parsed from events, committed with the independent sorted-pair tree builder (own SHA3), proposed and finalized on L1, and every leaf is claimed. Enumerated: all single descriptors of kind (user withdrawal, refund of a malformed-recipient deposit, one or two withdrawals executed inside the deposit's own hook) x amount {1, 2^63-1, 2^63, 2^64-1, 2^64, 2^64+1, 2^128} x denom {short, 128-char, ibc/...} x recipient {lower, upper-case bech32, fresh account}; all trees of size 2-3 (quick) / 2-4 (thorough) over a 12-entry menu; one covering tree per size up to 17. Oracle: every recorded withdrawal with a valid L1 recipient is paid exactly its amount; recording an amount that cannot be committed to a leaf, or a refund to an unpayable recipient, is a violation.",
+         "Every withdrawal tree of the stated menus is run through both chains: withdrawals are produced only by the real L2 handlers (user InitiateTokenWithdrawal and the refund path of FinalizeTokenDeposit), parsed from events, committed with the independent sorted-pair tree builder (own SHA3), proposed and finalized on L1, and every leaf is claimed. Enumerated: all single descriptors of kind (user withdrawal, refund of a malformed-recipient deposit, one or two withdrawals executed inside the deposit's own hook) x amount {1, 2^63-1, 2^63, 2^64-1, 2^64, 2^64+1, 2^128} x denom {short, 128-char, ibc/...} x recipient {lower, upper-case bech32, fresh account, L1 module account on the bank's blocked list}; relays are built from L1's events, the committing output is the bridge's second one, refunds also go to an upper-case L1 sender; all trees of size 2-3 (quick) / 2-4 (thorough) over a 12-entry menu; one covering tree per size up to 17. Oracle: every recorded withdrawal with a valid L1 recipient is paid exactly its amount; recording an amount that cannot be committed to a leaf, or a refund to an unpayable recipient, is a violation.",
          "Trusted: as C08. Bounded: menus as listed; holdings above one deposit are produced by minting on L2 and funding the escrow.",
          "DESIGN.md §6 C04"),
  "C08": ("model_checking",
@@ -83,17 +83,17 @@ CHECKS = {
          "DESIGN.md §6 C20"),
  "C07": ("model_checking",
          "exhaustive input product x deviation-bounded choice-point DFS over keeper-call faults (stateless exploration of the real handler)",
-         "Every deposit input of the product start state {fresh, after credited+refunded deposits} x recipient {existing, fresh, malformed, empty, other-prefix bech32, blocked module account, opchild module account} x amount {0, 1, 2^64-1} x denom {new, already paired} x HookMaxGas {0, tight, default} x outer gas meter {infinite, ample finite} x hook payload {none, random bytes, truncated tx, bad signature, wrong sequence, unroutable message, signed [ok], [ok,ok], [ok,fail], [fail], panicking, gas-exhausting} is finalized on the real handler; then, Mode C: an error (where the method can return one) and a panic is injected at every individual call the handler makes through the BankKeeper/AccountKeeper interfaces handed to opchild.NewKeeper and to the hook's signature-verification decorator chain (bound 1 in quick, 2 in thorough; a re-run fails hard if its recorded prefix is not reached again). Oracle: SUCCESS and exactly one of credited / refunded-to-the-L1-sender at the next L2 sequence; failed hooks leave no effects but the signer's sequence; hook gas <= HookMaxGas (outer charge and inner limit); faults inside the mint/transfer cache section or the hook never become handler errors; faults elsewhere are atomic.",
+         "L1-emittable family: 320 raw L1 deposit messages (denoms incl. invalid syntax, amounts 0/1/2^64-1/2^64, recipients, payloads) go through the real L1 handler, and whatever it accepts must finalize on L2 at the expected sequence. Every deposit input of the product start state {fresh, after credited+refunded deposits} x recipient {existing, fresh, malformed, empty, other-prefix bech32, blocked module account, opchild module account} x amount {0, 1, 2^64-1} x denom {new, already paired} x HookMaxGas {0, tight, default} x outer gas meter {infinite, ample finite} x hook payload {none, random bytes, truncated tx, bad signature, wrong sequence, unroutable message, signed [ok], [ok,ok], [ok,fail], [fail], panicking, gas-exhausting, executor-signed relay of the very sequence being processed} is finalized on the real handler; then, Mode C: an error (where the method can return one) and a panic is injected at every individual call the handler makes through the BankKeeper/AccountKeeper interfaces handed to opchild.NewKeeper and to the hook's signature-verification decorator chain (bound 1 in quick, 2 in thorough; a re-run fails hard if its recorded prefix is not reached again). Oracle: SUCCESS and exactly one of credited / refunded-to-the-L1-sender at the next L2 sequence; failed hooks leave no effects but the signer's sequence; hook gas <= HookMaxGas (outer charge and inner limit); faults inside the mint/transfer cache section or the hook never become handler errors; faults elsewhere are atomic.",
          "Trusted: as C06; hook target = real bank MsgSend behind a wrapper that panics / burns gas on magic amounts; fault points are interface calls (bank-internal calls are not intercepted).",
          "DESIGN.md §6 C07"),
  "C12": ("model_checking",
          "explicit-state search over role rotations (saturating) + full message-type x signer matrix per state",
-         "L1: every role assignment reachable by UpdateProposer/UpdateChallenger (to X or X2, by governance or by the current holder) on two bridges is enumerated (the state space saturates at 16 assignments); L2: admin changes, executor-list changes (both through ExecuteMessages), bridge-info binding and executor-change plans (lists [e2], [e3], [e2,e3]: shorter, longer, differently ending) executed by the real EndBlocker (the state space saturates). In every state every message type of the module is delivered by every signer (governance/authority, every current and past role holder, batch submitter, creator, stranger), built so that it would succeed but for authorization; oracle = the property's role table on the model's current holders (allowed => succeeds, also for a new holder immediately; otherwise fails with an unchanged digest), signer read back through GetMsgV1Signers; ExecuteMessages batches are all-or-nothing with authority-only inner signers; SetBridgeInfo cannot re-point bridge id, address, L1 chain id or a set L1 client id.",
+         "L1: every role assignment reachable by UpdateProposer/UpdateChallenger (to X or X2, by governance or by the current holder) on two bridges is enumerated (the state space saturates at 16 assignments); L2 (one deposit already processed, so that stale replays can be offered by every signer): admin changes, executor-list changes (both through ExecuteMessages), bridge-info binding and executor-change plans (lists [e2], [e3], [e2,e3]: shorter, longer, differently ending) executed by the real EndBlocker (the state space saturates). In every state every message type of the module is delivered by every signer (governance/authority, every current and past role holder, batch submitter, creator, stranger), built so that it would succeed but for authorization; oracle = the property's role table on the model's current holders (allowed => succeeds, also for a new holder immediately; otherwise fails with an unchanged digest), signer read back through GetMsgV1Signers; ExecuteMessages batches are all-or-nothing with authority-only inner signers; SetBridgeInfo cannot re-point bridge id, address, L1 chain id or a set L1 client id.",
          "Trusted: as C11/C06. UpdateOracle carries a fully signed commit wherever the L1 client is bound and a host validator set is recorded; elsewhere only its authorization class is probed.",
          "DESIGN.md §6 C12"),
  "C15": ("model_checking",
          "explicit-state search over update/refresh histories + exhaustive vote-shape product per state",
-         "Mode S enumerates histories of oracle updates (three timestamps, full and partial pair coverage), validator-set refreshes (lower/equal/higher height x configured/other/empty client x same/other set) and oracle-flag toggles (plus, in a third configuration whose bridge info starts without an L1 client id so that no set can be recorded, the one-time SetL1ClientId) on the real UpdateOracle handler, connect x/oracle keeper, codecs and vote aggregator; Mode P executes, at the root (and every depth-1 state in the thorough tier), all 16^n combinations of per-validator vote shapes (absent, signed p/q, missing pair, missing timestamp, bad signature, other chain id / height / round, listed twice, non-commit empty / with extension / with unsigned extension / with signature only, commit flag with unsigned extension, correctly signed undecodable extension) x unknown validator, and in every state the sender / update-height / equal-and-older-timestamp variations. Oracle (soundness direction): a changed price implies executor, flag on, height >= recorded set height, distinct known validators with a correctly signed price (by the harness's own signing bookkeeping) holding >= 2/3 of the recorded power, strictly larger timestamp; rejected => digest unchanged; set replaced => configured client and strictly higher height.",
+         "Mode S enumerates histories of oracle updates (three timestamps, full and partial pair coverage), validator-set refreshes (lower/equal/higher height x configured/other/empty client x same/other set) and oracle-flag toggles; in every state the recorded set is compared key by key with the last accepted refresh and the validators of the set that is not recorded sign everything (plus, in a third configuration whose bridge info starts without an L1 client id so that no set can be recorded, the one-time SetL1ClientId) on the real UpdateOracle handler, connect x/oracle keeper, codecs and vote aggregator; Mode P executes, at the root (and every depth-1 state in the thorough tier), all 16^n combinations of per-validator vote shapes (absent, signed p/q, missing pair, missing timestamp, bad signature, other chain id / height / round, listed twice, non-commit empty / with extension / with unsigned extension / with signature only, commit flag with unsigned extension, correctly signed undecodable extension) x unknown validator, and in every state the sender / update-height / equal-and-older-timestamp variations. Oracle (soundness direction): a changed price implies executor, flag on, height >= recorded set height, distinct known validators with a correctly signed price (by the harness's own signing bookkeeping) holding >= 2/3 of the recorded power, strictly larger timestamp; rejected => digest unchanged; set replaced => configured client and strictly higher height.",
          "Trusted: as C06 plus connect's codecs/aggregator and CometBFT ed25519. Bounded: validator sets (1,1,1), (3,1,1) and (thorough) (2,1,1,1); depth 3 (quick) / 4 (thorough).",
          "DESIGN.md §6 C15"),
  "C16": ("model_checking",
